@@ -578,3 +578,16 @@ void dom_p21(void) {
         emit_case(line);
     }
 }
+
+/* Domain p09ubig: unit 1 answers 2^15 (thorough: also 2^16, and one more or less) result items: its item count must not leak
+ * into unit 2 (';' before unit 2's answer, one terminator).  See dir_p06big for the cost. */
+void dom_p09ubig(void) {
+    static const long big[] = {32768, 32767, 32769, 65535, 65536, 65537}; int bi, nb = h_thorough ? 6 : 1;
+    static char line[1000];
+    for (bi = 0; bi < nb; bi++) {
+        size_t k = (size_t) sprintf(line, "PU 256 8 4c4e473f:1:rN,%ld;51313f:2:rI,32,1,1,10 ", big[bi]);      /* LNG? , Q1? */
+        k += chunk_hex(line + k, "LNG?", 4); k += (size_t) sprintf(line + k, " | "); k += chunk_hex(line + k, ":Q1?", 4);
+        line[k] = 0;
+        emit_case(line);
+    }
+}
